@@ -186,7 +186,7 @@ fn cmd_replay(args: &[String]) -> i32 {
                     r.step(evt, dst, true);
                 }
                 let res = r.finish();
-                drop(sut);
+                let _ = std::panic::catch_unwind(std::panic::AssertUnwindSafe(move || drop(sut)));
                 paths += 1;
                 steps += res.steps;
                 skipped += res.skipped;
@@ -239,8 +239,12 @@ fn cmd_exec(args: &[String]) -> i32 {
         }
         r.step(&e, None, false);
     }
+    // orderly teardown, recorded like everything else
+    for e in r.sut.cleanup_ops() {
+        r.step(&e, None, false);
+    }
     let res = r.finish();
-    drop(sut);
+    let _ = std::panic::catch_unwind(std::panic::AssertUnwindSafe(move || drop(sut)));
     let mut h = header.clone();
     h["prim"] = json!(prim);
     h["flavour"] = json!(flavour);
@@ -280,7 +284,7 @@ fn cmd_random(args: &[String]) -> i32 {
             r.step(&e, None, false);
         }
         let res = r.finish();
-        drop(sut);
+        let _ = std::panic::catch_unwind(std::panic::AssertUnwindSafe(move || drop(sut)));
         events += res.recorded.len();
         for e in &res.recorded {
             writeln!(f, "{}", e).unwrap();
